@@ -5,6 +5,10 @@ the public API and simulated with pyrtl.Simulation; for every instance and opera
 the simulated value AND len(result) are compared with
   (a) the Coq model Front/{Ops,PySlice,Signed,Barrel}.v evaluated by vm_compute (tie), and
   (b) the mathematical specification computed here in plain Python (search).
+In addition the select net's op_param of every slice is compared structurally with the PySlice
+model and with Python list slicing (check_indices), and py/genfrag_C06.py regenerates
+Gen/C06Src.v (the _two_var_op length rule, _convert_int, _convert_bool) from the source on every
+run; Front/SrcTie.v proves the model equal to it.
 """
 import itertools
 import pyrtl
@@ -685,7 +689,7 @@ def run(ctx, only=None, only_inst=None):
             c = len(j.points) * wmax * wmax
             if inst.group == 'shift' and j.wb:
                 c *= 1 + j.wb / 4.0
-            costs.append(c + 5)
+            costs.append(c + 60)   # + elaboration of the instance expression itself
     # pack consecutive expressions into bins of similar cost: one Eval (a list of rows) per bin
     target = max(sum(costs) / 40.0, 1.0)
     bins, cur, acc = [], [], 0.0
